@@ -91,6 +91,8 @@ func runC09(c *Ctx) {
 	}
 	ruleInputStream(c, p, roles, "C09")
 	ruleWriterInvariant(c, p, "C09.writer")
+	ruleRebuild(c, p, "C09.rebuild")
+	ruleDict(c, p, "C09.dict")
 	c.R.Assumptions = append(c.R.Assumptions,
 		"(*proto.Writer).Flush writes synchronously (net.Buffers.WriteTo) and drops every reference afterwards (C09.writer.* = the C14 induction steps)",
 		"decided: order of encode / flush / callback / terminator on all paths; not decided: byte equality of each block with the snapshot taken inside the callback")
@@ -287,6 +289,52 @@ func ruleInputStream(c *Ctx, p *core.Program, roles *doRoles, prefix string) {
 		}
 		if !bad {
 			c.R.Ok(rule, k, cfg, p.Pos(call.Pos()), "EOF path sends the tail rows or has tested that there are none")
+		}
+	}
+
+	// --- C09.more
+	rule = prefix+".more"
+	c.R.Rule(rule, "the stream ends only on end-of-input: from the nil-error edge of every callback call the terminator is reachable only through another callback call or through an io.EOF edge - a callback that returned nil (more input may follow, even if it produced no rows this time) never leads straight to the terminator")
+	for _, call := range a.C {
+		ev := core.ErrValue(call)
+		if ev == nil {
+			continue
+		}
+		al := core.Aliases(streamer, ev)
+		k := core.CallKey(streamer, call)
+		var allEOF []core.Edge
+		for _, c2 := range a.C {
+			if e2 := core.ErrValue(c2); e2 != nil {
+				allEOF = append(allEOF, eofTrueEdges(streamer, core.Aliases(streamer, e2))...)
+			}
+		}
+		nilEdges := core.CondEdges(streamer, false, func(cond ssa.Value) (bool, bool) {
+			x, nonNil, ok := nilCmp(cond)
+			if !ok || !al[x] {
+				return false, false
+			}
+			return nonNil, true
+		})
+		// `f == nil` (callback cleared after EOF, or never given) is the other legitimate way to the terminator
+		fNil := core.CondEdges(streamer, true, func(cond ssa.Value) (bool, bool) {
+			x, nonNil, ok := nilCmp(cond)
+			if !ok || core.FieldOrigin(x, 0) != "Query.OnInput" {
+				return false, false
+			}
+			return !nonNil, true
+		})
+		bad := false
+		for _, e := range nilEdges {
+			start := core.Point{B: e.B.Succs[e.Succ], I: -1}
+			w := core.ReachAvoiding(start, isB, isC, core.WithoutEdges(append(append([]core.Edge{}, allEOF...), fNil...)))
+			if len(w) > 0 {
+				bad = true
+				c.R.Bad(rule, k, cfg, p.Pos(w[0].At.Pos()), "after a callback that returned nil the terminator is reachable without asking the callback again: later input rounds are silently lost", p.TrailString(w[0])...)
+				break
+			}
+		}
+		if !bad {
+			c.R.Ok(rule, k, cfg, p.Pos(call.Pos()), "nil result leads back to the callback (or to EOF handling) before any terminator")
 		}
 	}
 
